@@ -310,3 +310,34 @@ def C19.scanBad (c : Ctx) (j : Journal) (fatalHere : Bool) : List String :=
 
 end Spec
 end Esc
+
+namespace Esc
+namespace Spec
+
+/-! ### C15 -/
+
+/-- An UPDATE is precise w.r.t. the object `u` the preceding GET returned: it is `u` plus exactly the
+    escalator taint stamped `nowSec` (or `nowSec + 1`: the write may straddle a second) on an object
+    that had none, or `u` minus its first escalator taint; nothing else differs. -/
+def C15.preciseUpdate (nowSec : Int) (effect : String) (u obj : Node) : Bool :=
+  (!hasTaint escKey u &&
+    (obj == { u with taints := u.taints ++ [newEscTaint nowSec effect] } ||
+     obj == { u with taints := u.taints ++ [newEscTaint (nowSec + 1) effect] })) ||
+  (hasTaint escKey u && obj == { u with taints := swapRemoveFirst (fun t => t.key == escKey) u.taints })
+
+/-- Walk a journal paired with the recorded responses: every UPDATE must directly follow a successful
+    GET of the same node and be precise w.r.t. the object that GET returned. Returns offending names. -/
+def C15.bad (nowSec : Int) (effect : String) : Option Node → List (Entry × Resp) → List String
+  | _, [] => []
+  | last, (e, r) :: rest =>
+    match e.call with
+    | .getNode _ => C15.bad nowSec effect (match r with | .node n => some n | _ => none) rest
+    | .updateNode obj =>
+      (match last with
+       | some u => if u.name == obj.name && C15.preciseUpdate nowSec effect u obj then [] else [obj.name]
+       | none => [obj.name]) ++ C15.bad nowSec effect none rest
+    | .describeInstances _ => C15.bad nowSec effect last rest
+    | _ => C15.bad nowSec effect none rest
+
+end Spec
+end Esc
